@@ -21,7 +21,7 @@ pub open spec fn succ_correct(b: &BoardState, s: &BoardState) -> bool {
     (s.last_move is Some && gen_sound(b, s, s.last_move.unwrap().0)) || castle_sound(b, s)
 }
 '''
-SND = '@C02,C13| '
+SND = '@C01,C02,C13| '
 KEY = '@C05| '
 CMP = '@C01,C13| '
 INV = lambda i, j: [
@@ -29,6 +29,7 @@ INV = lambda i, j: [
     KEY + 'key_ok(board, zobrist_hasher)',
     KEY + 'forall|k: int| 0 <= k < new_moves@.len() ==> key_ok(#[trigger] &new_moves@[k], zobrist_hasher)',
     SND + 'forall|k: int| 0 <= k < new_moves@.len() ==> succ_correct(board, #[trigger] &new_moves@[k])',
+    SND + 'forall|k: int| 0 <= k < new_moves@.len() ==> legal_position(#[trigger] &new_moves@[k])',
     CMP + 'forall|k: int| 0 <= k < new_moves@.len() ==> { let s = #[trigger] new_moves@[k]; s.last_move is Some && own_at(board, move_of(&s).0) && visited(move_of(&s).0, %s, %s) && legal_from(board, move_of(&s), move_gen_mode) }' % (i, j),
     CMP + 'forall|m: Mv| own_at(board, m.0) && visited(m.0, %s, %s) && #[trigger] legal_from(board, m, move_gen_mode) ==> has_move(new_moves@, 0, m)' % (i, j),
     CMP + 'distinct_moves(new_moves@, 0)',
@@ -44,6 +45,8 @@ GM = {
         CMP + 'distinct_moves(res@, 0)',
         # C02: every successor is the position after its move
         SND + 'forall|k: int| 0 <= k < res@.len() ==> succ_correct(board, #[trigger] &res@[k])',
+        # ... and is again a legal position: the precondition of generation is re-established (chains of any length)
+        SND + 'forall|k: int| 0 <= k < res@.len() ==> legal_position(#[trigger] &res@[k])',
         # C05: every successor's incremental key equals its from-scratch key
         KEY + 'forall|k: int| 0 <= k < res@.len() ==> key_ok(#[trigger] &res@[k], zobrist_hasher)',
     ],
@@ -79,6 +82,9 @@ GM = {
                 }
             }''', SND + '''proof {
                 assert forall|k: int| 0 <= k < new_moves@.len() implies succ_correct(board, #[trigger] &new_moves@[k]) by {
+                    if k < before.len() { assert(new_moves@[k] == before[k]); }
+                }
+                assert forall|k: int| 0 <= k < new_moves@.len() implies legal_position(#[trigger] &new_moves@[k]) by {
                     if k < before.len() { assert(new_moves@[k] == before[k]); }
                 }
             }''', KEY + '''proof {
@@ -126,6 +132,9 @@ GM = {
     }''', SND + '''proof {
         let v = new_moves@; let n0 = before_c.len() as int;
         assert forall|k: int| 0 <= k < v.len() implies succ_correct(board, #[trigger] &v[k]) by {
+            if k < n0 { assert(v[k] == before_c[k]); }
+        }
+        assert forall|k: int| 0 <= k < v.len() implies legal_position(#[trigger] &v[k]) by {
             if k < n0 { assert(v[k] == before_c[k]); }
         }
     }''', KEY + '''proof {
